@@ -3,6 +3,8 @@
     auth <vector>     vector: string over o (source returns), a (raises exception A), b (raises exception B);
                       "-" = no sources.  Source i is called `i`; a successful source i returns the value i.
   Reply:  ret|fail  <i>:<o|a|b> …  | calls <i> … | pulled <i> …
+    session <vector>/<vector>/…   several authenticate() calls on ONE strategy object (heap model)
+  Reply:  <id>:ret|fail … (one per call) || <contents of every AuthResult object at the end, in identity order>
 -/
 import PV.Model.AuthStrategy
 import PV.Base.DriverIO
@@ -34,6 +36,16 @@ def step (line : String) : String :=
         | .returned r => "ret " ++ showPairs r
         | .authFailure r => "fail " ++ showPairs r
       head ++ " | calls " ++ showNats l.calls ++ " | pulled " ++ showNats l.pulled
+    | none => "bad-op"
+  | ["session", vs] =>
+    match (vs.splitOn "/").mapM parseVec with
+    | some calls =>
+      -- every source carries its own outcome (source i of a call is `(i, outcome)`)
+      let srcsOf (os : List (Out Char Nat)) : List (Nat × Out Char Nat) := (List.range os.length).zip os
+      let r := session (fun (x : Nat × Out Char Nat) (u : Unit) => (x.2, u)) (calls.map srcsOf)
+        ({ heap := [], st := () } : Obj (Nat × Out Char Nat) Char Nat Unit)
+      " ".intercalate (r.2.map fun (id, ok) => toString id ++ ":" ++ (if ok then "ret" else "fail")) ++ " || " ++
+        " / ".intercalate (r.1.heap.map fun cell => showPairs (cell.map fun (x, o) => (x.1, o)))
     | none => "bad-op"
   | _ => "bad-op"
 
